@@ -378,7 +378,18 @@ def check(ctx, case):
         with ctx.sut(case, "CustomNormalization(...)(x)"):
             norm = cn.CustomNormalization(**kw)
             if via == "imshow":
-                _through_matplotlib(norm, x, case["mpl"])
+                try:
+                    _through_matplotlib(norm, x, case["mpl"])
+                except Exception as e:  # noqa: BLE001
+                    import traceback
+
+                    if any("/quantem/" in fr.filename for fr in traceback.extract_tb(e.__traceback__)):
+                        raise  # raised by / below quantem code: judged by ctx.sut
+                    # matplotlib itself refused (e.g. a colorbar that cannot be laid out because Normalize.inverse, which
+                    # the statement does not cover, returned something unusable): not a clause of the property - the case
+                    # continues with a fresh object on the direct route
+                    ctx.count("mpl_route_refused_by_matplotlib:" + type(e).__name__)
+                    norm = cn.CustomNormalization(**kw)
             il = norm.interval.get_limits(x)
             y = norm(x)
         _judge_limits(case, x, lims, il, "interval.get_limits(x)")
